@@ -164,6 +164,43 @@ fn text_route(cs: &mut Cases, text: &str) {
     cs.push("plain", format!("plain {}", h), show(r.clone()), nontriv, format!("SafeLong::from_plain({})", note));
     check_text(cs, "from_plain", meaning.is_some(), &r);
 
+    // the server's parameter decoders (what a generated endpoint uses for a safelong path / query / header argument):
+    // single, optional, and as the middle element of a list between two good ones — a bad element fails the whole
+    // list, it is not dropped
+    {
+        use conjure_http::server::conjure::{FromPlainDecoder, FromPlainOptionDecoder, FromPlainSeqDecoder};
+        use conjure_http::server::{ConjureRuntime, DecodeParam};
+        let t = text.to_string();
+        let r = guarded(move || <FromPlainDecoder as DecodeParam<SafeLong>>::decode(&ConjureRuntime::new(), [t.as_str()]).map_err(|e| e.cause().to_string())).and_then(|r| r);
+        cs.push("param", format!("plain {}", h), show(r.clone()), nontriv, format!("FromPlainDecoder on the parameter {}", note));
+        check_text(cs, "param", meaning.is_some(), &r);
+        let t = text.to_string();
+        let r = guarded(move || <FromPlainOptionDecoder as DecodeParam<Option<SafeLong>>>::decode(&ConjureRuntime::new(), [t.as_str()]).map_err(|e| e.cause().to_string()));
+        let flat: Result<SafeLong, String> = match r {
+            Ok(Ok(Some(v))) => Ok(v),
+            Ok(Ok(None)) => Err("<absent>".into()),
+            Ok(Err(e)) => Err(e),
+            Err(p) => Err(p),
+        };
+        cs.push("param-opt", format!("plain {}", h), show(flat.clone()), nontriv, format!("FromPlainOptionDecoder on the parameter {}", note));
+        check_text(cs, "param-opt", meaning.is_some(), &flat);
+        let t = text.to_string();
+        let r = guarded(move || <FromPlainSeqDecoder<SafeLong> as DecodeParam<Vec<SafeLong>>>::decode(&ConjureRuntime::new(), ["1", t.as_str(), "-2"]).map_err(|e| e.cause().to_string()));
+        let flat: Result<SafeLong, String> = match r {
+            Ok(Ok(v)) if v.len() == 3 && *v[0] == 1 && *v[2] == -2 => Ok(v[1]),
+            Ok(Ok(v)) => Err(format!("<{} elements: {:?}>", v.len(), v.iter().map(|x| **x).collect::<Vec<_>>())),
+            Ok(Err(e)) => Err(e),
+            Err(p) => Err(p),
+        };
+        cs.push("param-seq", format!("plain {}", h), show(flat.clone()), nontriv, format!("FromPlainSeqDecoder on the parameters 1, {}, -2", note));
+        check_text(cs, "param-seq", meaning.is_some(), &flat);
+        if let Err(e) = &flat {
+            if e.starts_with('<') {
+                cs.fail_last("param-seq:elements-dropped", format!("the list 1, {:?}, -2 decodes to {} instead of three elements or an error", text, e));
+            }
+        }
+    }
+
     // JSON routes only for texts made of sign and digits (no escapes, no whitespace): the model has
     // the JSON integer grammar, not a JSON parser.
     if text.bytes().all(|b| b.is_ascii_digit() || b == b'-' || b == b'+') && !text.is_empty() {
